@@ -49,6 +49,101 @@ def main(p):
             for a, b in zip(steps, steps[1:]):
                 if np.any(a & ~b):
                     bad.append("a step removed channels from the mask")
+        elif p["kind"] == "outlier":
+            from sigpyproc.core import stats
+            rng = np.random.default_rng(5)
+            n, radius, which = p["n"], p["radius"], p["which"]
+            thr = float(p["thr"])
+            if p.get("z") and thr > 0:
+                # the solver's z-scores, handed to the real mask function through a mocked estimate_zscore
+                zs = [np.array(z, dtype=np.float64) for z in p["z"]]
+                it = iter(zs)
+
+                class ZR:
+                    def __init__(self, data):
+                        self.data = data
+                with mock.patch.object(stats, "estimate_zscore", lambda *a, **k: ZR(next(it))):
+                    x0 = np.array(p["x"], dtype=np.float32)
+                    got = rfi.double_mad_mask(x0, thr) if which == "mad" else rfi.iqrm_mask(x0, thr, radius)
+                want = np.zeros(n, dtype=bool)
+                for z in zs:
+                    want |= np.abs(z) > thr
+                if not np.array_equal(np.asarray(got, dtype=bool), want):
+                    bad.append(f"{which}_mask with z-scores {[z.tolist() for z in zs]} and threshold {thr} = {np.asarray(got).tolist()} but |z| > threshold gives {want.tolist()}")
+            xs = [np.array(p["x"], dtype=np.float32)] + [np.round(rng.normal(size=max(n, 8)) * 5).astype(np.float32) + (np.arange(max(n, 8)) == 2) * 90 for _ in range(3)]
+            for x in xs:
+                for t in (thr, 1.5, 3.0):
+                    try:
+                        got = rfi.double_mad_mask(x, t) if which == "mad" else rfi.iqrm_mask(x, t, radius)
+                    except ValueError:
+                        if t > 0:
+                            bad.append(f"threshold {t} rejected")
+                        continue
+                    if t <= 0:
+                        bad.append(f"non-positive threshold {t} accepted")
+                        continue
+                    import warnings
+                    with warnings.catch_warnings():
+                        warnings.simplefilter("ignore")
+                        if which == "mad":
+                            want = np.abs(stats.estimate_zscore(x, scale_method="doublemad").data) > t
+                        else:
+                            want = np.zeros(len(x), dtype=bool)
+                            for lag in [l for l in range(-radius, radius + 1) if l]:
+                                lane = x - x[np.clip(np.arange(len(x)) + lag, 0, len(x) - 1)]
+                                want |= np.abs(stats.estimate_zscore(lane, scale_method="iqr").data) > t
+                    if not np.array_equal(np.asarray(got, dtype=bool), want):
+                        bad.append(f"{which}_mask({x.tolist()}, {t}) = {np.asarray(got).tolist()} but the definition gives {want.tolist()}")
+                        break
+        elif p["kind"] == "dispatch":
+            seen = []
+            z = np.zeros(4, dtype=np.float32)
+            hdr = Header.from_sigproc(write_set(d, np.zeros((4, 4), np.uint8), 8, [4]))
+            with mock.patch.object(rfi, "double_mad_mask", lambda a, t: (seen.append("mad"), np.zeros(4, bool))[1]), \
+                    mock.patch.object(rfi, "iqrm_mask", lambda a, t: (seen.append("iqrm"), np.zeros(4, bool))[1]):
+                for meth in ("mad", "iqrm"):
+                    seen.clear()
+                    rfi.RFIMask(3.0, hdr, z, z, z, z, z, z).apply_method(meth)
+                    if seen != [meth] * 3:
+                        bad.append(f"apply_method({meth!r}) used {seen}")
+                try:
+                    rfi.RFIMask(3.0, hdr, z, z, z, z, z, z).apply_method("bogus")
+                    bad.append("unknown method accepted")
+                except ValueError:
+                    pass
+        elif p["kind"] == "h5":
+            import attrs
+            from astropy.coordinates import Angle, SkyCoord
+            nch = p["nchans"]
+            rng = np.random.default_rng(3)
+            hdr = Header(filename=os.path.join(d, "obs_0001.fil"), data_type="filterbank", nchans=nch, foff=-0.390625, fch1=1510.0, nbits=8, tsamp=6.4e-5,
+                         tstart=58000.25, nsamples=4096, nifs=1, coord=SkyCoord(83.63, 22.01, unit="deg"), azimuth=Angle("12.5d"), zenith=Angle("33.25d"),
+                         telescope="Parkes", backend="BPSR", source="J0534+2200", frame="barycentric", ibeam=3, nbeams=13, dm=56.77, period=0.0334, accel=1.5,
+                         signed=True, rawdatafile="raw_0001.dat")
+            fl = [rng.normal(size=nch).astype(np.float32) for _ in range(6)]
+            mk = {k: rng.integers(0, 2, nch).astype(bool) for k in ("chan_mask", "user_mask", "stats_mask", "custom_mask")}
+            m = rfi.RFIMask(3.25, hdr, *fl, **mk)
+            out = m.to_file(os.path.join(d, "m.h5"))
+            if out != os.path.join(d, "m.h5") or not os.path.exists(out):
+                bad.append("to_file did not write/return the requested name")
+            b = rfi.RFIMask.from_file(out)
+            if float(b.threshold) != 3.25:
+                bad.append(f"threshold {b.threshold} != 3.25")
+            for f in ("chan_mean", "chan_var", "chan_skew", "chan_kurt", "chan_maxima", "chan_minima", "chan_mask", "user_mask", "stats_mask", "custom_mask"):
+                if not np.array_equal(getattr(m, f), getattr(b, f)) or getattr(m, f).dtype != getattr(b, f).dtype:
+                    bad.append(f"{f} not reproduced")
+            for fld in attrs.fields(Header):
+                if fld.name == "stream_info":
+                    continue
+                a_, b_ = getattr(hdr, fld.name), getattr(b.header, fld.name)
+                if isinstance(a_, SkyCoord):
+                    same = abs(a_.ra.deg - b_.ra.deg) < 1e-9 and abs(a_.dec.deg - b_.dec.deg) < 1e-9
+                elif isinstance(a_, Angle):
+                    same = abs(a_.deg - b_.deg) < 1e-9
+                else:
+                    same = bool(a_ == b_)
+                if not same:
+                    bad.append(f"header field {fld.name}: saved {a_!r:.60} loaded {b_!r:.60}")
         else:
             x = random_samples(np.random.default_rng(2), 64, 8, 8)
             fil = FilReader(write_set(d, x, 8, [64]))
